@@ -908,3 +908,47 @@ def br_update_conc(c):
             nq = sum(f['quantity'] for f in W.fills if f['p'] == p and f['asset'] == a)
             c.ob('open/holding-is-previous-plus-filled-quantity', EQ(W.qty_(p, a), W.qty_(p, a, pre) + nq), props=['C02'])
             c.ob('open/held-iff-net-quantity-nonzero', W.held_(p, a) == (W.qty_(p, a) != 0), props=['C02'])
+
+
+# ===================================================================================== construction
+@harness('SimulatedBroker.__init__', props=['C01', 'C15', 'C08'], layer='L2', functions=BR_FUNCS)
+def br_init(c):
+    """a new broker: master balance = initial funds in the base currency, zero elsewhere, no portfolios, no queues;
+       unsupported base currency -> ValueError, negative initial funds -> ValueError, non-FeeModel -> TypeError"""
+    from qstrader.broker.fee_model.zero_fee_model import ZeroFeeModel
+    funds = c.real('initial_funds', lambda r: r.choice([-5.0, 0.0, 0.0, 1e6, 2500.5]))
+    t = c.time('start')
+    for cur in ('USD', 'GBP', 'EUR', 'XXX'):
+        r, b = outcome(lambda: SimulatedBroker(t, None, None, base_currency=cur, initial_funds=funds, fee_model=ZeroFeeModel()))
+        want = 'ValueError' if cur == 'XXX' else expected([(funds < 0.0, 'ValueError')])
+        c.ob('%s/refused-iff-unsupported-currency-or-negative-funds' % cur, r == want, props=['C15', 'C01'])
+        if r != 'ok':
+            continue
+        c.ob('%s/base-currency-holds-the-initial-funds' % cur, EQ(b.cash_balances[cur], funds), props=['C01'])
+        c.ob('%s/other-currencies-start-at-zero' % cur, AND(*[EQ(b.cash_balances[k], 0) for k in CURRENCIES if k != cur]), props=['C01'])
+        c.ob('%s/no-portfolios-no-queues' % cur, AND(len(b.portfolios) == 0, len(b.open_orders) == 0, b.portfolios is not b.open_orders), props=['C01', 'C04'])
+        c.ob('%s/clock-is-start' % cur, EQ(b.current_dt, t), kind='A')
+    r, _ = outcome(lambda: SimulatedBroker(t, None, None, fee_model=object()))
+    c.ob('non-fee-model-refused/type-TypeError', r == 'TypeError', props=['C15'])
+    fm = ZeroFeeModel()
+    r, b = outcome(lambda: SimulatedBroker(t, 'EX', 'DH', account_id='acct', fee_model=fm))
+    c.ob('collaborators-stored', AND(r == 'ok', b.exchange == 'EX', b.data_handler == 'DH', b.fee_model is fm, b.account_id == 'acct'), props=['C08'])
+
+
+canary('initial funds credited to every currency', SimulatedBroker, '_set_cash_balances',
+       'cash_dict[self.base_currency] = self.initial_funds', 'cash_dict = dict((k, self.initial_funds) for k in cash_dict)')(br_init)
+canary('negative initial funds accepted', SimulatedBroker, '_set_initial_funds', 'if initial_funds < 0.0:', 'if False:')(br_init)
+
+
+@harness('SimulatedBroker.list_all_portfolios', props=['C18'], layer='L2', functions=BR_FUNCS)
+def br_list(c):
+    """the portfolio listing is ordered by portfolio id (independent of creation / hash order); empty broker -> []"""
+    from qstrader.broker.fee_model.zero_fee_model import ZeroFeeModel
+    t = c.time('start')
+    b = SimulatedBroker(t, None, None, fee_model=ZeroFeeModel())
+    c.ob('empty-broker-lists-nothing', b.list_all_portfolios() == [])
+    for ids in (['b', 'a', 'c'], ['2', '10', '1']):
+        b = SimulatedBroker(t, None, None, fee_model=ZeroFeeModel())
+        for i in ids:
+            b.create_portfolio(i)
+        c.ob('listed-in-ascending-id-order/%s' % ''.join(ids), [p.portfolio_id for p in b.list_all_portfolios()] == sorted(ids))
